@@ -257,4 +257,8 @@ def rmObs (sh : MShared) : RmObs := ⟨sh.registered, sh.disposed, sh.pending, 0
 
 def holdsM2 (o : RmObs) : Bool := o.disposed == o.registered && o.pending == 0 && o.twice == 0
 
+/-! ### Later operations fail cleanly: no call on a closing or closed component panics. -/
+
+def holdsK (panics : Nat) : Bool := panics == 0
+
 end Tunnox.C16
